@@ -115,13 +115,11 @@ def litVal (p : Nat) (sg : Sign) (ip : Str) (fo : Option Str) : Int :=
   if sg = .minus then -((parseDigits ip * 10^p + fracVal p fo : Nat) : Int)
   else ((parseDigits ip * 10^p + fracVal p fo : Nat) : Int)
 
-/-- `[+-]? digit* ('.' digit*)?` with at least one digit; a '+' must be followed by an integer digit (the code
-    rejects "+.5") -/
+/-- `[+-]? digit* ('.' digit*)?` with at least one digit -/
 structure IsLiteral (sg : Sign) (ip : Str) (fo : Option Str) : Prop where
   ipd : ∀ c ∈ ip, isDigit c = true
   fpd : ∀ fp, fo = some fp → ∀ c ∈ fp, isDigit c = true
   one : ip ≠ [] ∨ ∃ fp, fo = some fp ∧ fp ≠ []
-  plus : sg = .plus → ip ≠ []
 
 theorem C64.eq_of_fits {a b : Int} (ha : fits64 a = true) (hb : fits64 b = true) (h : C64 a b) : a = b := by
   have := C64.wrap_eq hb h
@@ -136,14 +134,14 @@ theorem sign_ip_clean (sg : Sign) (ip : Str) (h : ∀ c ∈ ip, isDigit c = true
 
 /-- the `switch parts[0]` on sign ++ digits: the integer part scaled (mod 2^64) and the sign flag -/
 theorem head64_literal (m : Int) (sg : Sign) (ip : Str) (hd : ∀ c ∈ ip, isDigit c = true)
-    (hplus : sg = .plus → ip ≠ []) (hfit : fits64 (if sg = .minus then -(parseDigits ip : Int) else parseDigits ip) = true) :
+    (hfit : fits64 (if sg = .minus then -(parseDigits ip : Int) else parseDigits ip) = true) :
     ∃ hv, head64 m (sg.bytes ++ ip) = some (hv, decide (sg = .minus)) ∧ C64 hv (parseDigits ip * m) := by
   by_cases hip : ip = []
   · subst hip
     cases sg
     · exact ⟨0, by simp [Sign.bytes, head64], ⟨0, by simp [parseDigits]⟩⟩
     · exact ⟨0, by simp [Sign.bytes, head64], ⟨0, by simp [parseDigits]⟩⟩
-    · exact absurd rfl (hplus rfl)
+    · exact ⟨0, by simp [Sign.bytes, head64], ⟨0, by simp [parseDigits]⟩⟩
   · obtain ⟨c, t, rfl⟩ := List.exists_cons_of_ne_nil hip
     have hc := isDigit_bounds c (hd c (by simp))
     have hpu := parseUnsigned_digits (c :: t) (by simp) hd
@@ -157,7 +155,7 @@ theorem head64_literal (m : Int) (sg : Sign) (ip : Str) (hd : ∀ c ∈ ip, isDi
         simp [hfit']
       refine ⟨wrap64 ((parseDigits (c :: t) : Int) * m), ?_, C64.wrap _⟩
       unfold head64
-      rw [if_neg (by simp), if_neg (by simp; omega), hps]
+      rw [if_neg (by simp; omega), if_neg (by simp; omega), hps]
       simp only
       rw [if_neg (by omega)]
       simp; omega
@@ -217,7 +215,7 @@ theorem fromStr64_literal (p : Nat) (hp : p ≤ 18) (sg : Sign) (ip : Str) (fo :
     unfold litVal at hfit
     simp only [fits64, Bool.and_eq_true, decide_eq_true_eq] at hfit ⊢
     split at hfit <;> rename_i hs <;> simp only [hs, if_true, if_false] <;> omega
-  obtain ⟨hv, hhead, hC⟩ := head64_literal (10^p) sg ip hl.ipd hl.plus hfitN
+  obtain ⟨hv, hhead, hC⟩ := head64_literal (10^p) sg ip hl.ipd hfitN
   have hvfit := head64_fits _ _ _ _ hhead
   unfold litVal at hfit ⊢
   rw [hV] at hfit ⊢
@@ -267,15 +265,14 @@ theorem fromStr64_literal (p : Nat) (hp : p ≤ 18) (sg : Sign) (ip : Str) (fo :
       simp only [Bool.false_eq_true, if_false]
       exact C64.eq_of_fits (wrap64_fits _) hfit hC2
 
-theorem head128_literal (m : Int) (sg : Sign) (ip : Str) (hd : ∀ c ∈ ip, isDigit c = true)
-    (hplus : sg = .plus → ip ≠ []) :
+theorem head128_literal (m : Int) (sg : Sign) (ip : Str) (hd : ∀ c ∈ ip, isDigit c = true) :
     head128 m (sg.bytes ++ ip) = some ((parseDigits ip : Int) * m, decide (sg = .minus)) := by
   by_cases hip : ip = []
   · subst hip
     cases sg
     · simp [Sign.bytes, head128, parseDigits]
     · simp [Sign.bytes, head128, parseDigits]
-    · exact absurd rfl (hplus rfl)
+    · simp [Sign.bytes, head128, parseDigits]
   · obtain ⟨c, t, rfl⟩ := List.exists_cons_of_ne_nil hip
     have hc := isDigit_bounds c (hd c (by simp))
     have hpu := parseUnsigned_digits (c :: t) (by simp) hd
@@ -284,7 +281,7 @@ theorem head128_literal (m : Int) (sg : Sign) (ip : Str) (hd : ∀ c ∈ ip, isD
       have hps : parseSigned (c :: t) = some (parseDigits (c :: t) : Int) := by
         rw [parseSigned_digit_head c t (hd c (by simp)), hpu]; rfl
       unfold head128
-      rw [if_neg (by simp), if_neg (by simp; omega), hps]
+      rw [if_neg (by simp; omega), if_neg (by simp; omega), hps]
       simp only
       rw [if_neg (by omega)]
       simp; omega
@@ -318,7 +315,7 @@ theorem fromStr128_literal (p : Nat) (sg : Sign) (ip : Str) (fo : Option Str)
     fromStr128 p (10^p) (litText sg ip fo) = .ok (litVal p sg ip fo) := by
   have hV : ((parseDigits ip * 10^p + fracVal p fo : Nat) : Int) =
       (parseDigits ip : Int) * 10^p + (fracVal p fo : Int) := by push_cast; ring
-  have hhead := head128_literal (10^p) sg ip hl.ipd hl.plus
+  have hhead := head128_literal (10^p) sg ip hl.ipd
   have hsat := sat128_of_fits _ hfit
   unfold litVal at hsat ⊢
   rw [hV] at hsat ⊢
